@@ -151,3 +151,56 @@ Proof.
   split; [vm_compute; reflexivity|]. split; [vm_compute; reflexivity|]. split; [exact w_brk_reach|].
   split; vm_compute; reflexivity.
 Qed.
+
+(* x = 1
+   while cond():
+       use(x)           # use 7: only 1 reaches it, the checker reports {1, 2}
+   else:
+       x = 2 *)
+Definition w_upper : block :=
+  blk [SAssign 1 1; SLoop false (blk [SUse 1 7]) (blk [SAssign 1 2])].
+
+Lemma w_upper_body_nil : forall prot o x, lpath_b prot (blk [SUse 1 7]) o x -> x = [].
+Proof.
+  intros prot o x H. cbn [blk lpath_b lpath_s] in H.
+  destruct H as [(_ & _ & ->)|[(t1 & t2 & (_ & ->) & (_ & ->) & ->)|[(_ & _ & (_ & ->))|(_ & (_ & ->))]]]; reflexivity.
+Qed.
+
+Lemma w_upper_iters_nil : forall prot th,
+  iters (fun x => lpath_b prot (blk [SUse 1 7]) ONorm x \/ lpath_b prot (blk [SUse 1 7]) OCont x) th -> th = [].
+Proof.
+  intros prot th H. induction H as [|t1 t2 H1 IH H2]; [reflexivity|].
+  subst t1. destruct H2 as [H2|H2]; apply w_upper_body_nil in H2; subst; reflexivity.
+Qed.
+
+Lemma w_upper_not_liberal : ~ liberal_reach w_upper 7 2.
+Proof.
+  intros (t & v & H & E). cbn [w_upper blk lupath_b lupath_s] in H.
+  destruct H as [[]|(t1 & t2 & (_ & ->) & H & ->)].
+  destruct H as [H|(t3 & t4 & _ & [] & _)].
+  destruct H as (th & t5 & Hi & -> & H). apply w_upper_iters_nil in Hi. subst th.
+  destruct H as [H|H].
+  - destruct H as [(_ & <- & ->)|(t6 & t7 & _ & [] & _)]. cbn in E. discriminate.
+  - destruct H as [[]|(t6 & t7 & _ & [] & _)].
+Qed.
+
+Lemma w_upper_facts : upper_ok w_upper = false /\ In 2 (reported w_upper 7) /\ ~ liberal_reach w_upper 7 2.
+Proof.
+  split; [vm_compute; reflexivity|]. split; [vm_compute; auto|exact w_upper_not_liberal].
+Qed.
+
+(* if cond(): x = 1
+   while cond():
+       with sup():
+           try:
+               x = 2; g(); x = 3
+           except Exception:
+               use(x)   # use 8
+   use(x)               # use 9: {2, 3, 1, unbound} *)
+Definition w_up_ok : block :=
+  blk [SIf (blk [SAssign 1 1]) BNil;
+       SLoop false (blk [SWith true (blk [STry (blk [SAssign 1 2; SCall; SAssign 1 3]) (HCons (blk [SUse 1 8]) HNil) BNil BNil])]) BNil;
+       SUse 1 9].
+
+Lemma w_up_ok_facts : upper_ok w_up_ok = true /\ lower_ok w_up_ok = true /\ reported w_up_ok 9 = [2; 3; 1; 0].
+Proof. split; [vm_compute; reflexivity|]. split; vm_compute; reflexivity. Qed.
